@@ -201,7 +201,7 @@ func (w *Worker) Settle(allowBlocked bool, watchdog time.Duration) (Status, stri
 			runtime.Gosched()
 			continue
 		}
-		if spin%20 == 0 {
+		if spin%4 == 0 {
 			st, dump := States()
 			if IsLockWait(st[w.gid]) {
 				lockSeen++
@@ -219,6 +219,6 @@ func (w *Worker) Settle(allowBlocked bool, watchdog time.Duration) (Status, stri
 				return Running, st[w.gid], &ErrHang{Worker: w.Name, State: st[w.gid], Dump: dump}
 			}
 		}
-		time.Sleep(50 * time.Microsecond)
+		time.Sleep(20 * time.Microsecond)
 	}
 }
